@@ -163,6 +163,19 @@ impl Debug for RB { fn fmt(&self, f: &mut std::fmt::Formatter<'_>) -> std::fmt::
 impl MapKey for RA { type Value = i64; }
 impl MapKey for RB { type Value = i64; }
 
+/// zero-sized task types with identical (empty) hash and identical Debug text
+#[derive(Clone, PartialEq, Eq, Hash)] pub struct UA;
+#[derive(Clone, PartialEq, Eq, Hash)] pub struct UB;
+impl Debug for UA { fn fmt(&self, f: &mut std::fmt::Formatter<'_>) -> std::fmt::Result { write!(f, "U") } }
+impl Debug for UB { fn fmt(&self, f: &mut std::fmt::Formatter<'_>) -> std::fmt::Result { write!(f, "U") } }
+fn body15u<C: Context>(ty: i64, ctx: &mut C) -> i64 {
+  XLOG.with(|l| l.borrow_mut().push(format!("exec {} 0", ty)));
+  let a = ctx.read(&RA(0), MapEqualsChecker).unwrap().copied().unwrap_or(0);
+  ty * 1000 + a
+}
+impl Task for UA { type Output = i64; fn execute<C: Context>(&self, ctx: &mut C) -> i64 { body15u(7, ctx) } }
+impl Task for UB { type Output = i64; fn execute<C: Context>(&self, ctx: &mut C) -> i64 { body15u(8, ctx) } }
+
 fn body15<C: Context>(ty: i64, n: u32, ctx: &mut C) -> i64 {
   XLOG.with(|l| l.borrow_mut().push(format!("exec {} {}", ty, n)));
   let a = ctx.read(&RA(n), MapEqualsChecker).unwrap().copied().unwrap_or(0);
@@ -179,7 +192,7 @@ impl Task for TB { type Output = i64; fn execute<C: Context>(&self, ctx: &mut C)
 
 fn key15(ty: u32, n: u32) -> Option<Box<dyn KeyObj>> {
   Some(match ty { 0 => Box::new(TA(n)), 1 => Box::new(TB(n)), 2 => Box::new(Box::new(TA(n))), 3 => Box::new(Rc::new(TA(n))), 4 => Box::new(Arc::new(TA(n))),
-    5 => Box::new(RA(n)), 6 => Box::new(RB(n)), _ => return None })
+    5 => Box::new(RA(n)), 6 => Box::new(RB(n)), 7 if n == 0 => Box::new(UA), 8 if n == 0 => Box::new(UB), _ => return None })
 }
 
 pub fn run_lib15(lines: &[String]) -> Vec<String> {
@@ -212,9 +225,11 @@ pub fn run_lib15(lines: &[String]) -> Vec<String> {
             let t2: Vec<&str> = l2.split(' ').collect();
             let ["req", ty, n] = t2.as_slice() else { return None; };
             let (ty, n): (u32, u32) = (ty.parse().ok()?, n.parse().ok()?);
+            if ty > 8 || ty == 5 || ty == 6 || ((ty == 7 || ty == 8) && n != 0) { return None; }
             let r = catch_unwind(AssertUnwindSafe(|| match ty {
               0 => session.require(&TA(n)), 1 => session.require(&TB(n)), 2 => session.require(&Box::new(TA(n))),
-              3 => session.require(&Rc::new(TA(n))), 4 => session.require(&Arc::new(TA(n))), _ => -1 }));
+              3 => session.require(&Rc::new(TA(n))), 4 => session.require(&Arc::new(TA(n))),
+              7 => session.require(&UA), 8 => session.require(&UB), _ => -1 }));
             XLOG.with(|x| out.extend(x.borrow_mut().drain(..)));
             match r { Ok(v) => out.push(format!("{} -> out {}", l2, v)), Err(p) => out.push(format!("{} -> abort {}", l2, crate::build::panic_kind(&p))) }
           }
